@@ -40,7 +40,10 @@ def gen(rng, tier):
            'msgpack': rng.random() < 0.15,
            # asyncio: sends suspend for a seeded time (a membership change
            # issued meanwhile runs while the emit is half-way through)
-           'send_pauses': rng.random() < 0.4}
+           'send_pauses': rng.random() < 0.4,
+           # thread world: free schedule (an emit and a membership change
+           # issued by two application threads interleave at every send)
+           'policy': rng.choice(['fifo', 'random', 'pct'])}
     ops = []
     for p in range(npeers):
         ops.append(['open', p])
@@ -173,7 +176,8 @@ def run(case):
                    choices_replay=case.get('choices'),
                    lat=LATS[cfg['lat']], msgpack=cfg['msgpack'],
                    send_pauses=(0.0, 0.001, 0.004)
-                   if cfg.get('send_pauses') else None)
+                   if cfg.get('send_pauses') else None,
+                   policy=cfg.get('policy', 'fifo'))
     try:
         return _run(case, cfg, w)
     finally:
@@ -313,6 +317,13 @@ def _run(case, cfg, w):
         elif k == 'emit':
             _, ns, to_s, skip_s, race, argname = op[:6]
             binary = len(op) > 6 and op[6]
+            if binary and race is not None and w.mode == 'thread' and \
+                    cfg.get('policy', 'fifo') != 'fifo':
+                # two application threads sending to one client at once: the
+                # frames of a multi-frame (binary) packet are not sent as a
+                # unit by the threaded server - that is the defect recorded
+                # under C05 (interleaved frames), not this property
+                binary = False
             to = res_target(to_s, ns)
             skip = res_target(skip_s, ns)
             n_emit += 1
@@ -331,7 +342,8 @@ def _run(case, cfg, w):
             raced = False
             payload = (tag, b'\x00\x01' + tag.encode()) if binary else tag
             want_data = ['ev', tag] + ([payload[1]] if binary else [])
-            if race is not None and w.mode == 'async':
+            if race is not None and (w.mode == 'async' or
+                                     cfg.get('policy', 'fifo') != 'fifo'):
                 # a membership change issued in the same instant, before or
                 # after the emit (seeded); sequential code paths - the emit
                 # must see exactly one of the two memberships
